@@ -175,6 +175,12 @@ PROPS = {
     },
     "C13": {
         "gen": _c13_gen,
+        "sweep": gen.c13_sweep_cases,
+        "exhaustive_note": (
+            "sweep part: ALL operation sequences of length <= 2 (quick) / <= 4 (thorough) that end in an observation, over a 12-op alphabet "
+            "{minimize(lin), minimize(quad), maximize(lin'), subject_to(lin), subject_to(nonlinear), subject_to(new variable), lb edit, "
+            "solve(auto|linprog|SLSQP|trust-constr), read_variables} on two fixed pools; exhaustive for that bounded space only"
+        ),
         "level": "exploration",
         "rule": (
             "seeded edit/solve/read histories (3-22 ops over minimize, maximize, subject_to, subject_to([..]), lb/ub edits, "
